@@ -7,7 +7,6 @@ import (
 	"verif/internal/ev"
 	. "verif/internal/lang"
 	"verif/internal/progen"
-	"verif/internal/rt"
 )
 
 // Rejected pieces of every syntactic shape. The piece alphabet has a handful of rejected pieces; what a
@@ -61,7 +60,7 @@ func runContexts(r *ev.Run) int {
 	done := make(chan bool)
 	for w := 0; w < 16; w++ {
 		go func() {
-			env := rt.NewEnv(nil)
+			env := newEnv()
 			for {
 				i := int(atomic.AddInt64(&next, 1))
 				if i >= len(seqs) {
